@@ -44,6 +44,32 @@ def make_units(seed, n, wd):
             for s in inputs_mod.inputs_for(g, r.name, irnd, n_sent=6, n_total=(30 if prof in ("unicode", "charclass") else 16), unicode_heavy=(prof in ("unicode", "mix", "charclass"))):
                 cases.append(("c%d" % k, i, r.name, 2, 50000000, s))
                 k += 1
+    # one "heavy" grammar: parses that hold hundreds of thousands of cache entries for a while, running next to all the
+    # small ones (anything budgeted or counted per process rather than per parse shows up in the small ones' results)
+    hi = n
+    htext = "@export Big = { i:Item } [ tail:Tail ] $;\n@memoize Item = 'a' | 'b' 'c';\n@memoize Tail = 'x' | 'y' Tail;\n"
+    gp = os.path.join(wd, "g%d.ebnf" % hi)
+    with open(gp, "w", encoding="utf-8") as f:
+        f.write(htext)
+    texts[hi] = htext
+    units.append({"gidx": hi, "gpath": gp, "code_path": os.path.join(wd, "g%d.rs" % hi), "exports": [("Big", False)], "ctx": False})
+    for s_ in ("a" * 700000, "a" * 400000 + "bc" * 150000 + "yyx", "a" * 650000 + "b", "bc" * 330000 + "q"):
+        cases.append(("c%d" % k, hi, "Big", 1, 2000000000, s_))  # mode 1: plain parse (no event log for 300 KB inputs)
+        k += 1
+    # ... and a small grammar whose error reports depend on whether a cache entry is used (a cache hit returns the state
+    # of the first evaluation, with its furthest-failure record), parsed many times so that some of its parses overlap
+    # the heavy ones
+    si = n + 1
+    stext = "@export Small = 'b' A 'n' | B A 'q' | B 'z';\nB = 'b' ['a' 'x' 'y'];\n@memoize A = 'a' | 'c' 'd';\n"
+    gp = os.path.join(wd, "g%d.ebnf" % si)
+    with open(gp, "w", encoding="utf-8") as f:
+        f.write(stext)
+    texts[si] = stext
+    units.append({"gidx": si, "gpath": gp, "code_path": os.path.join(wd, "g%d.rs" % si), "exports": [("Small", False)], "ctx": False})
+    for rep in range(40):
+        for s_ in ("bax", "baq", "ban", "bcdx", "bcx", "b"):
+            cases.append(("c%d" % k, si, "Small", 2, 50000000, s_))
+            k += 1
     return units, cases, texts
 
 
@@ -87,7 +113,7 @@ def check_C20(tier, seed):
         build.run_batch_bin(binp, cp, lp, len(cases))
         base = {}
         for cid, modes in build.parse_log(lp).items():
-            base[cid] = fingerprint(modes["rec"][0])
+            base[cid] = fingerprint((modes.get("rec") or modes["noop"])[0])
         bycase = {c[0]: c for c in cases}
         evaluations = 0
         nontriv = 0
@@ -100,7 +126,7 @@ def check_C20(tier, seed):
         lp2 = os.path.join(wd, "seq2.log")
         build.run_batch_bin(binp, cp2, lp2, len(order2))
         for cid, modes in build.parse_log(lp2).items():
-            for rec in modes["rec"]:
+            for rec in (modes.get("rec") or modes.get("noop") or []):
                 evaluations += 1
                 fp = fingerprint(rec)
                 if fp[0] and fp[0][0] == "ok" or (fp[0] and fp[0][0] == "err" and fp[0][1] > 0):
@@ -122,7 +148,7 @@ def check_C20(tier, seed):
             try:
                 subprocess.run([binp, cpf, lpf], stdout=subprocess.DEVNULL, stderr=subprocess.DEVNULL, timeout=120, env=build.BASE_ENV)
                 obs1 = build.parse_log(lpf)
-                rec = obs1[c[0]]["rec"][0]
+                rec = (obs1[c[0]].get("rec") or obs1[c[0]]["noop"])[0]
                 return c, fingerprint(rec)
             except Exception:
                 return c, None
@@ -167,7 +193,7 @@ def check_C20(tier, seed):
                 intervals = []
                 assign = []
                 for cid, modes in obs.items():
-                    for rec in modes.get("rec", []):
+                    for rec in (modes.get("rec") or modes.get("noop") or []):
                         evaluations += 1
                         fp = fingerprint(rec)
                         if fp[0] and (fp[0][0] == "ok" or (fp[0][0] == "err" and fp[0][1] > 0)):
